@@ -522,23 +522,20 @@ static void opSample(Rng& r, Ctx& c, int kind, Mat m)
   std::unique_ptr<MatrixRectangular> s(MatrixRectangular::sample(a.get(), rows, cols));
   if (!s) c.check("sample", K + ":sample:null", false, 1, 0, "null");
   else cmpMat(c, "sample", K + ":sample", *s, w, 0);
-  // inverted selection
+  // inverted selections: the listed rows (resp. columns) are the ones to DROP ("flagInvertRow/Col", MatrixRectangular.hpp)
+  for (int inv = 1; inv < 4; inv++)
   {
-    VectorInt rdrop;
-    Mat w2((int)(m.nr - rows.size()), (int)cols.size());
-    int ii = 0;
-    for (int i = 0; i < m.nr; i++)
-    {
-      if (std::find(rows.begin(), rows.end(), i) != rows.end()) continue;
-      for (size_t j = 0; j < cols.size(); j++) w2(ii, (int)j) = m(i, cols[j]);
-      ii++;
-    }
-    if (w2.nr > 0)
-    {
-      std::unique_ptr<MatrixRectangular> s2(MatrixRectangular::sample(a.get(), rows, cols, true, false));
-      if (!s2) c.check("sample", K + ":sample-invert:null", false, 1, 0, "null");
-      else cmpMat(c, "sample", K + ":sample-invert", *s2, w2, 0);
-    }
+    bool invR = inv & 1, invC = inv & 2;
+    VectorInt rk, ck;
+    for (int i = 0; i < m.nr; i++) if ((std::find(rows.begin(), rows.end(), i) != rows.end()) != invR) rk.push_back(i);
+    for (int j = 0; j < m.nc; j++) if ((std::find(cols.begin(), cols.end(), j) != cols.end()) != invC) ck.push_back(j);
+    if (rk.empty() || ck.empty()) continue;
+    Mat w2((int)rk.size(), (int)ck.size());
+    for (size_t i = 0; i < rk.size(); i++) for (size_t j = 0; j < ck.size(); j++) w2((int)i, (int)j) = m(rk[i], ck[j]);
+    std::string k2 = K + (inv == 1 ? ":sample-invert" : inv == 2 ? ":sample-invert-col" : ":sample-invert-both");
+    std::unique_ptr<MatrixRectangular> s2(MatrixRectangular::sample(a.get(), rows, cols, invR, invC));
+    if (!s2) c.check("sample", k2 + ":null", false, 1, 0, "null");
+    else cmpMat(c, "sample", k2, *s2, w2, 0);
   }
   if (isSparseK(kind))
   {
